@@ -515,6 +515,38 @@ fn main() {
             println!("depth {} stack {}MB -> {:?} in {:?}", depth, mb, r.is_ok(), t0.elapsed());
             0
         }
+        Some("dump") if args.len() >= 3 => {
+            // dump <exec|static|edit> <seed> [len]: print one generated module (generator inspection)
+            use vharness::gen::{gen_module, GenCfg, Kind, Profile};
+            let kind = match args[1].as_str() {
+                "exec" => Kind::Exec,
+                "edit" => Kind::Edit,
+                _ => Kind::Static,
+            };
+            let seed: u64 = args[2].parse().unwrap_or(1);
+            let len: usize = args.get(3).and_then(|s| s.parse().ok()).unwrap_or(2048);
+            let mut x = seed.wrapping_mul(0x9E3779B97F4A7C15) | 1;
+            let tape: Vec<u8> = (0..len)
+                .map(|_| {
+                    x ^= x << 13;
+                    x ^= x >> 7;
+                    x ^= x << 17;
+                    (x >> 24) as u8
+                })
+                .collect();
+            let mut t = vharness::tape::Tape::new(&tape);
+            let mut profile = Profile::from_tape(&mut t);
+            if kind == Kind::Exec {
+                profile.multivalue = true;
+                profile.tail = true;
+            }
+            let cfg = GenCfg::new(kind, profile);
+            let m = gen_module(&mut t, &cfg);
+            let bytes = m.encode();
+            println!("{}", vharness::dec::module::print_wat(&bytes));
+            println!(";; valid: {:?}", vharness::dec::module::validate(&bytes));
+            0
+        }
         Some("list") => {
             for id in props::all_ids() {
                 println!("{}", id);
